@@ -233,7 +233,7 @@ class C16Check:
         # every branching query is answered `unknown` (a sampled rate would give the two twins different explorations)
         unknown_rate = 1.0
         gc_rate = ch.choose([0.0, 1.0, 1.0], "sw.gc")
-        core_fault = ch.choose([None, None, "core_missing", "core_garbled", "core_empty"], "sw.corefault")
+        core_fault = ch.choose([None, None, "core_missing", "core_garbled", "core_empty", "core_truncated"], "sw.corefault")
         case = TreeCase(ch)
         rt, cj, bom = case.build()
         sigs = [s for s, _ in case.funs]
@@ -243,6 +243,9 @@ class C16Check:
             gcs = {"n": 0}
 
             def plan(info):
+                if core_fault == "core_truncated" and info["truth"] == "unsat" and not info["refined"] and (info["seq"] % 2 == 0):
+                    t = R.truncated_core(info.get("truth_stdout") or "")
+                    return ("stdout:" + t) if t else None
                 if core_fault and info["truth"] == "unsat" and not info["refined"] and (info["seq"] % 2 == 0):
                     return {"core_missing": "stdout:unsat\n", "core_garbled": "stdout:unsat\n(<12 <oops\n",
                             "core_empty": "stdout:unsat\n()\n"}[core_fault]
